@@ -451,6 +451,8 @@ def compile(object, return_code=False):
             return Literal(f'"{x}"', block=code.root_block)
         elif isinstance(x, int | float | np.integer | np.floating | bool):
             # ################## Numeric ##################
+            if isinstance(x, np.generic):
+                x = x.item()  # str() of a numpy scalar is not its exact value, e.g. str(np.float32(0.1)) == "0.1"
             return Literal(str(x), block=code.root_block)
         elif x is None:
             # ################## None ##################
